@@ -18,10 +18,15 @@ package c13
 // Output: `0:[found A=7 ; …] 1:[…] | reads a=1 b=1 c=1 | A=7 B=7 C=7` — per step the answer (`found X=7` when the type
 // handed out accepts 7 and rejects 8, `found X=?` when it does not: an alias that was resolved against a placeholder),
 // the reads per file, and what the three names are AFTER the run (looked up on the main goroutine).
-// Predicate classes: `instantiated-twice`, `crash` (a lookup raised or faulted), `nested-unresolved` (a name is found but
-// is not the type its file chain denotes — during or after the run), `not-linearizable-placeholder-visible` (a lookup of
-// a name that has a file answered not-found while its instantiation was in progress on another goroutine: the known
-// finding), `file-hidden` (not-found with no instantiation in progress).
+// Predicate classes: `instantiated-twice`, `crash` (a lookup raised or faulted), `not-linearizable-placeholder-visible` (a
+// lookup of a name that has a file answered not-found while its instantiation was in progress on another goroutine: the
+// known finding), `file-hidden` (not-found with no instantiation in progress), and for a name that is found but is not
+// the type its file chain denotes — during or after the run —
+//
+//	nested-unresolved      the broken link of the alias chain (the reference that is unresolved, or the alias that is not
+//	                       resolved yet) names a type whose placeholder ANOTHER goroutine had installed, and not yet
+//	                       replaced, while the step ran: known finding C13-nested-lookup-meets-placeholder
+//	nested-wrong-binding   anything else (no other goroutine was inside the instantiation of that name): not excused
 
 import (
 	"fmt"
@@ -65,6 +70,43 @@ func nestedDir() (string, map[string]string) {
 		}
 	}
 	return dir, paths
+}
+
+// brokenLink: the lower-cased name at which the alias chain of v stops short of a real type ("" when it does not)
+func brokenLink(v interface{}) (link string) {
+	defer func() {
+		if e := recover(); e != nil {
+			link = "?"
+		}
+	}()
+	quietly(func() {
+		for depth := 0; depth < 6; depth++ {
+			at, ok := v.(*types.TypeAliasType)
+			if !ok {
+				return
+			}
+			var rt px.Type
+			unresolved := false
+			func() {
+				defer func() {
+					if e := recover(); e != nil {
+						unresolved = true // "Reference to unresolved type": the alias itself is bound but not resolved yet
+					}
+				}()
+				rt = at.ResolvedType()
+			}()
+			if unresolved || rt == nil {
+				link = strings.ToLower(at.Name())
+				return
+			}
+			if tr, isRef := rt.(*types.TypeReferenceType); isRef {
+				link = strings.ToLower(tr.TypeString())
+				return
+			}
+			v = rt
+		}
+	})
+	return
 }
 
 // is7: does the value denote Integer[7,7] (through however many aliases)?
@@ -140,8 +182,15 @@ func execNested(args []sx.Sexp) core.Result {
 		return nestedChain[i]
 	}
 	raced := make([][]bool, len(progs))
+	heldByOthers := make([][]map[string]bool, len(progs)) // per step: the names whose placeholder another goroutine had installed while the step ran
+	links := make([][]string, len(progs))                 // per step: the broken link of what was handed out
 	for t := range progs {
 		raced[t] = make([]bool, len(progs[t]))
+		links[t] = make([]string, len(progs[t]))
+		heldByOthers[t] = make([]map[string]bool, len(progs[t]))
+		for i := range heldByOthers[t] {
+			heldByOthers[t][i] = map[string]bool{}
+		}
 	}
 	accept := func(site string) bool {
 		ok := site == "op" || site == "filebased.loadentry" || site == "filebased.instantiate.enter" || site == "filebased.instantiate.placeholder"
@@ -177,6 +226,7 @@ func execNested(args []sx.Sexp) core.Result {
 					continue
 				}
 				for _, h := range holding[u] {
+					heldByOthers[t][curStep[t]][h] = true
 					if strings.Index("abc", h) >= first {
 						raced[t][curStep[t]] = true
 					}
@@ -201,7 +251,11 @@ func execNested(args []sx.Sexp) core.Result {
 			return r
 		}
 		if ok {
-			return "found " + strings.ToUpper(progs[t][i]) + "=" + is7(v)
+			r := is7(v)
+			if r != "7" {
+				links[t][i] = brokenLink(v)
+			}
+			return "found " + strings.ToUpper(progs[t][i]) + "=" + r
 		}
 		return "notfound"
 	}, schedule)
@@ -220,6 +274,7 @@ func execNested(args []sx.Sexp) core.Result {
 	}
 	sb.WriteString(" |")
 	after := map[string]string{}
+	afterLink := map[string]string{}
 	mainCtx := pcore.NewContext(fb, pcore.Logger())
 	touched := map[string]bool{}
 	for t := range progs {
@@ -241,6 +296,9 @@ func execNested(args []sx.Sexp) core.Result {
 			after[n] = r
 		case ok:
 			after[n] = is7(v)
+			if after[n] != "7" {
+				afterLink[n] = brokenLink(v)
+			}
 		default:
 			after[n] = "notfound"
 		}
@@ -260,13 +318,26 @@ func execNested(args []sx.Sexp) core.Result {
 			return fail("instantiated-twice", fmt.Sprintf("the file of %s was read %d times", n, reads[paths[n]]))
 		}
 	}
+	// the links that the mechanism of the known finding accounts for: some step was handed a type whose alias chain stops
+	// at a name whose placeholder another goroutine had installed while that step ran; a LATER observation of the same
+	// broken link is the same (permanent) corruption seen again
+	excusedLink := map[string]bool{}
+	for t := range progs {
+		for i := range outs[t] {
+			if l := links[t][i]; l != "" && heldByOthers[t][i][l] {
+				excusedLink[l] = true
+			}
+		}
+	}
 	for t := range progs {
 		for i, o := range outs[t] {
 			switch {
 			case o == "fault" || strings.HasPrefix(o, "reported"):
 				return fail("crash", fmt.Sprintf("thread %d step %d (load %s) ended in %s", t, i, progs[t][i], o))
+			case strings.HasSuffix(o, "=?") && excusedLink[links[t][i]]:
+				return fail("nested-unresolved", fmt.Sprintf("thread %d step %d: load %s handed out a type that does not denote Integer[7,7]: its alias chain stops at %s, whose placeholder another goroutine had installed (and not yet replaced) at that moment", t, i, progs[t][i], links[t][i]))
 			case strings.HasSuffix(o, "=?"):
-				return fail("nested-unresolved", fmt.Sprintf("thread %d step %d: load %s handed out a type that does not denote Integer[7,7]: the alias was resolved while the name it refers to was a placeholder", t, i, progs[t][i]))
+				return fail("nested-wrong-binding", fmt.Sprintf("thread %d step %d: load %s handed out a type that does not denote Integer[7,7] (alias chain stops at %q) although no other goroutine was inside the instantiation of that name", t, i, progs[t][i], links[t][i]))
 			case o == "notfound" && raced[t][i]:
 				return fail("not-linearizable-placeholder-visible", fmt.Sprintf("thread %d step %d: %s has a file, yet the lookup answered not-found (no sequential order gives that)", t, i, progs[t][i]))
 			case o == "notfound":
@@ -275,9 +346,60 @@ func execNested(args []sx.Sexp) core.Result {
 		}
 	}
 	for _, n := range nestedChain {
-		if a, ok := after[n]; ok && a != "7" {
-			return fail("nested-unresolved", fmt.Sprintf("after the run %s is %s: a nested lookup met the placeholder of an instantiation in progress and the alias stays unresolved for ever", strings.ToUpper(n), a))
+		a, ok := after[n]
+		if !ok || a == "7" {
+			continue
 		}
+		// excused only by the mechanism of the known finding (see excusedLink)
+		link := afterLink[n]
+		excused := excusedLink[link]
+		if excused {
+			return fail("nested-unresolved", fmt.Sprintf("after the run %s is %s for every goroutine: its alias chain stops at %s — a nested lookup met the placeholder another goroutine had installed, and the alias stays unresolved for ever", strings.ToUpper(n), a, link))
+		}
+		return fail("nested-wrong-binding", fmt.Sprintf("after the run %s is %s (alias chain stops at %q) although no nested lookup of it ran while another goroutine had that placeholder installed", strings.ToUpper(n), a, link))
 	}
 	return res
+}
+
+func genNested(g *core.G) {
+	// two threads with one load each over {a, A, b, c}: a load of a needs up to 10 slots, of b 7, of c 4 — every schedule
+	// with <= 3 (thorough: 5) switches; programs of two loads against a single load: <= 1 (thorough: 2) switches; three
+	// threads with one load each: <= 2 (thorough: 3) switches
+	names := []string{"x61", "x62", "x63"}
+	cost := map[string]int{"x61": 10, "x62": 7, "x63": 4, "x41": 10}
+	th := func(p ...string) string {
+		s := make([]string, len(p))
+		for i, n := range p {
+			s[i] = "(load " + n + ")"
+		}
+		return "(th " + strings.Join(s, " ") + ")"
+	}
+	sw := func(quick, thorough int) int {
+		if g.Thorough() {
+			return thorough
+		}
+		return quick
+	}
+	singles := append([]string{}, names...)
+	singles = append(singles, "x41")
+	for i, x := range singles {
+		for j, y := range singles {
+			if j < i {
+				continue
+			}
+			bounded([]int{cost[x], cost[y]}, sw(3, 5), func(s []int) { g.Emit("@nested (threads " + th(x) + " " + th(y) + ") " + schedStr(s)) })
+		}
+	}
+	for _, x := range names {
+		for _, y := range names {
+			for _, z := range names {
+				bounded([]int{cost[x] + cost[y], cost[z]}, sw(1, 2), func(s []int) {
+					g.Emit("@nested (threads " + th(x, y) + " " + th(z) + ") " + schedStr(s))
+				})
+				bounded([]int{cost[x], cost[y], cost[z]}, sw(2, 3), func(s []int) {
+					g.Emit("@nested (threads " + th(x) + " " + th(y) + " " + th(z) + ") " + schedStr(s))
+				})
+			}
+		}
+	}
 }
